@@ -6,11 +6,17 @@ det.install()
 import checklib  # noqa: E402
 import core      # noqa: E402
 
-SUITES = {'C03': ('tour', 'sim'), 'C04': ('tour', 'sim'), 'C05': ('tour', 'sim'), 'C09': ('tour', 'sim'),
+SUITES = {'C17': ('inplace',), 'C03': ('tour', 'sim'), 'C04': ('tour', 'sim'), 'C05': ('tour', 'sim'), 'C09': ('tour', 'sim'),
           'C01': ('tour', 'sim'), 'C02': ('tour', 'sim'), 'C07': ('tour', 'sim'),
           'C13': ('tour', 'sim'), 'C14': ('tour', 'sim'), 'C06': ('sched',)}
 
 RULES = {
+    'C17': 'behaviours of the model that reopen an image and call modify_file_in_place (accepted: same sector count; '
+           'refused: sector count changes, directory, missing, no data) on files at depth 1-2, hard-linked, with '
+           'Joliet/UDF/XA/Rock Ridge twins, repeatedly; the bytes of the backing file before/after are classified '
+           '(data of the target, directory records pointing at it, its UDF file entries, VD size fields, other) and '
+           'TLC judges InPlaceTouchesOnly / RefusedInPlaceChangedFile; the backing file is opened in a fresh object '
+           'and decoded independently and TLC compares it with the model state; Volume/Layout clauses on it',
     'C03': 'images written at the end of the core behaviours (every k-th, deduplicated by SHA-256) decoded by the '
            'independent ECMA-119 decoder (decoders/iso9660.py); TLC evaluates the Volume.tla clauses (descriptor set, '
            'both-endian copies, record packing, 9.3 order, dot/dotdot, sizes, path tables L/M) and ApiMatches '
@@ -59,6 +65,9 @@ def run_for(pid):
             ctx.note('suite_%s_traces' % suite, res['ntraces'])
             ctx.note('suite_%s_cached' % suite, 1 if res.get('cached') else 0)
             ctx.note('over_refusals', len(res['over']))
+            for act, cnt in res.get('action_counts', {}).items():
+                ctx.note('calls_%s_ok' % act, cnt['ok'])
+                ctx.note('calls_%s_refused' % act, cnt['refused'])
             ctx.note('out_of_scope_steps', len(res['skip']))
             for tid, h in beh.items():
                 if relevant_history(pid, h):
@@ -72,10 +81,13 @@ def run_for(pid):
             ctx.note('images_judged', res.get('images_judged', 0))
             ctx.note('images_remastered', res.get('images_remastered', 0))
             for tid, clauses in res.get('image_fails', {}).items():
-                mine = sorted(c for c in clauses if pid in core.image_properties(c))
+                if '@' in tid:       # image item of a backing file after modify_file_in_place
+                    mine = sorted(clauses) if pid == 'C17' else []
+                else:
+                    mine = sorted(c for c in clauses if pid in core.image_properties(c))
                 if not mine:
                     continue
-                h = beh.get(tid, [])
+                h = beh.get(tid.split('@')[0], [])
                 for c in mine:
                     sig = {'property': pid, 'clause': c, 'rr': h[0].get('cfg', {}).get('rr', '') if h else '',
                            'udf': h[0].get('cfg', {}).get('udf', False) if h else False}
@@ -127,6 +139,8 @@ def relevant_history(pid, h):
         return any(n in names for n in ('AddHardLink', 'RmHardLink', 'RmFile'))
     if pid == 'C06':
         return True
+    if pid == 'C17':
+        return 'ModifyInPlace' in names
     if pid == 'C09':
         return bool(h) and h[0].get('cfg', {}).get('joliet', 0) != 0
     return len(h) > 1
